@@ -32,12 +32,13 @@ HOST = "10.0.0.1"
 class Sub:
     """A recording subscriber (async callable)."""
 
-    def __init__(self, world, name: str, raises: bool = False, yields: int = 0, inside=None) -> None:
+    def __init__(self, world, name: str, raises: bool = False, yields: int = 0, inside=None, replies=None) -> None:
         self.world = world
         self.name = name
         self.raises = raises
         self.yields = yields
         self.inside = list(inside or [])  # subscribe / unsubscribe steps performed from within the first callback
+        self.replies = list(replies or [])  # message descriptions sent (one per call) from inside the callback, as the API classes do
 
     async def __call__(self, *args, **kw):
         self.world.trace.add("sub.call", k=self.name, args=tuple(_p(a) for a in args))
@@ -47,6 +48,17 @@ class Sub:
                 self.world.op_user_subscribe(dict(st, inside=True))
         for _ in range(self.yields):
             await asyncio.sleep(0)
+        if self.replies:
+            d = self.replies.pop(0)
+            self.world.trace.add("sub.reply", k=self.name)
+            try:
+                await self.world.sock.send(adapter.message_from(self.world.gen, d), adapter.policy_of("idem"))
+            except asyncio.CancelledError:
+                raise
+            except adapter.AdapterError:
+                raise
+            except Exception as exc:  # noqa: BLE001 - recorded, the subscriber swallows it (as a careful application would)
+                self.world.trace.add("sub.reply_raised", k=self.name, e=type(exc).__name__)
         if self.raises:
             self.world.trace.count("probe.subscriber_raised")
             raise RuntimeError(f"subscriber {self.name} fails")
@@ -423,7 +435,7 @@ class World:
     def op_user_sock_subscribe(self, step) -> None:
         """Extra message subscriber on the bare socket (may raise, may yield)."""
         name = step.get("name", "extra")
-        sub = Sub(self, name, raises=step.get("raises", False), yields=step.get("sub_yields", 0))
+        sub = Sub(self, name, raises=step.get("raises", False), yields=step.get("sub_yields", 0), replies=step.get("replies"))
         self.subs[name] = sub
         self.sock.subscribe_on_message_received(sub)
 
